@@ -55,6 +55,10 @@ func kfRepeat(args []KeyBuilderStage) (KeyBuilderStage, error) {
 	}), nil
 }
 
+// maxBarLen bounds the length of {bar}: the bar is written block by block, so a huge constant
+// length must not run for ever or exhaust memory
+const maxBarLen = 1 << 16
+
 // {bar {val} "maxVal" "len" ["scaler"]}
 func kfBar(args []KeyBuilderStage) (KeyBuilderStage, error) {
 	if !isArgCountBetween(args, 3, 4) {
@@ -68,6 +72,9 @@ func kfBar(args []KeyBuilderStage) (KeyBuilderStage, error) {
 	maxLen, maxLenOk := EvalStageInt(args[2])
 	if !maxLenOk {
 		return stageArgError(ErrNum, 2)
+	}
+	if maxLen > maxBarLen {
+		return stageArgError(ErrValue, 2)
 	}
 
 	scaler := termscaler.ScalerLinear
